@@ -19,6 +19,15 @@ pub fn page_size() -> (r: u64) ensures r == ps()
 #[verifier::external_body]
 fn page_size_ext() -> (r: u64) ensures r == ps() { unimplemented!() }
 
+pub const XEN_GRANT_ADDR_OFF: u64 = 1 << 63;
+pub open spec fn page_size_spec() -> u64 { ps() as u64 }
+/// the map request handed to the grant device (GntDevMapGrantRef::new fills refs base, base+1, ... for `count` pages)
+pub struct GntReq { pub index: u64, pub first_ref: Ghost<int>, pub count: Ghost<int>, pub for_addr: Ghost<int> }
+#[verifier::external_body]
+pub fn gnt_map_request(domid: u32, base: u32, count: usize) -> (r: Result<GntReq>)
+    ensures r matches Ok(q) ==> q.first_ref@ == base && q.count@ == count
+{ unimplemented!() }
+pub uninterp spec fn window_first_ref(index: u64) -> int;
 /// ghost state of the grant device, as a function of the window index returned by the map ioctl
 pub uninterp spec fn window_count(index: u64) -> int;
 pub uninterp spec fn window_base(index: u64) -> int;
@@ -119,10 +128,30 @@ impl FileOffset {
 //@enditem
 impl MmapXenGrant {
     pub fn as_raw_fd(&self) -> i32 { self.file_offset.fd }
-    /// IOCTL_GNTDEV_MAP_GRANT_REF for `count` pages starting at guest address `addr`
+    // IOCTL_GNTDEV_MAP_GRANT_REF for `count` pages starting at guest address `addr`: the real function;
+    // the FAM wrapper, the ioctl and errno are the trusted boundary below
+//@fn src/mmap/xen.rs :: impl MmapXenGrant :: mmap_ioctl :: tags=C17,C07
+//@sub GntDevMapGrantRef::new\(self\.domid, base, count\)\? => gnt_map_request(self.domid, base, count)?
+//@sub wrapper\.as_fam_struct_ref\(\) => &wrapper
+//@sub ioctl_with_ref\(self, ioctl_gntdev_map_grant_ref\(\), reference\) => self.ioctl_map_grant_ref(reference, Ghost(addr.0))
+//@sub io::Error::last_os_error\(\) => last_os_error()
+//@before 0 /-/
+        proof { ps_props(); }
+//@end
+//@spec
+    ensures r matches Ok(idx) ==> window_count(idx) == count && window_base(idx) == addr.0
+        // the window is requested for the grant references of the guest pages it is meant to show
+        // (grant references are 32 bit in the Xen ABI: addresses whose page number does not fit are out of its reach)
+        && ((addr.0 & !XEN_GRANT_ADDR_OFF) / page_size_spec() <= u32::MAX ==> window_first_ref(idx) == (addr.0 & !XEN_GRANT_ADDR_OFF) / page_size_spec()), // [C17]
+//@end
+//@canary truncate_first :: \(\(addr\.0 & !XEN_GRANT_ADDR_OFF\) / page_size\(\)\) as u32 => ((addr.0 & !XEN_GRANT_ADDR_OFF) as u32 / page_size() as u32)
+//@endfn
+    /// the map ioctl (trusted boundary): on success the device has granted `count` pages starting with
+    /// grant reference `first_ref` under the returned index; `for_addr` names (ghost) the guest address the
+    /// caller means them to show - that they DO show it is exactly the first_ref obligation of mmap_ioctl
     #[verifier::external_body]
-    pub fn mmap_ioctl(&self, addr: GuestAddress, count: usize) -> (r: Result<u64>)
-        ensures r matches Ok(idx) ==> window_count(idx) == count && window_base(idx) == addr.0
+    pub fn ioctl_map_grant_ref(&self, q: &GntReq, Ghost(for_addr): Ghost<u64>) -> (ret: i32)
+        ensures ret == 0 ==> window_count(q.index) == q.count@ && window_first_ref(q.index) == q.first_ref@ && window_base(q.index) == for_addr
     { unimplemented!() }
     /// IOCTL_GNTDEV_UNMAP_GRANT_REF: the device only knows (index, count) pairs it handed out
     #[verifier::external_body]
